@@ -79,8 +79,6 @@ def main():
 
 
 PROPS_PENDING = {
-    "C29": "claim planned (DESIGN.md U11) but its unit is not built yet",
-    "C35": "claim planned (DESIGN.md U12) but its unit is not built yet",
 }
 
 if __name__ == "__main__":
